@@ -534,26 +534,38 @@ class SelfPath(Path):
     def __str__(self) -> str:
         return "@" + str(self.path)[1:]
 
+    def _current_node(self, context: FilterContext) -> NodeList:
+        # A node list containing just the current node, without going through
+        # `finditer()`, which would try to parse a string value as JSON.
+        return NodeList(
+            [
+                context.env.match_class(
+                    filter_context=context.extra_context,
+                    obj=context.current,
+                    parent=None,
+                    path=context.env.root_token,
+                    parts=(),
+                    root=context.root,
+                )
+            ]
+        )
+
     def evaluate(self, context: FilterContext) -> object:
-        if isinstance(context.current, str):  # TODO: refactor
+        if isinstance(context.current, str) or not isinstance(
+            context.current, (Sequence, Mapping)
+        ):
             if self.path.empty():
-                return context.current
-            return NodeList()
-        if not isinstance(context.current, (Sequence, Mapping)):
-            if self.path.empty():
-                return context.current
+                return self._current_node(context)
             return NodeList()
 
         return NodeList(self.path.finditer(context.current))
 
     async def evaluate_async(self, context: FilterContext) -> object:
-        if isinstance(context.current, str):  # TODO: refactor
+        if isinstance(context.current, str) or not isinstance(
+            context.current, (Sequence, Mapping)
+        ):
             if self.path.empty():
-                return context.current
-            return NodeList()
-        if not isinstance(context.current, (Sequence, Mapping)):
-            if self.path.empty():
-                return context.current
+                return self._current_node(context)
             return NodeList()
 
         return NodeList(
